@@ -642,6 +642,10 @@ def getitem(it, base, idx, node, fr):
             pass
         else:
             r.space = None
+        if isinstance(idx, Seq) and idx.kind == "tuple" and idx.items and all(isinstance(x_, (Val, Unk)) for x_ in idx.items):
+            sps_ = [getattr(x_, "space", None) for x_ in idx.items]
+            if sps_[0] is not None and all(s_ is not None and s_.same(sps_[0]) for s_ in sps_):
+                r.space = sps_[0]  # V[c0, c1, c2] with coordinate columns: one value per coordinate row
         return r
     if isinstance(base, Ref):
         if base.name in ("numpy.mgrid", "numpy.ogrid"):
